@@ -169,6 +169,8 @@ def real_oracle(run):
         except TimeoutError:
             raise
         except Exception as e:  # noqa: BLE001  (statistic not available for this distribution: e.g. Categorical.median)
+            if type(e) is RuntimeError:      # (NotImplementedError / ValueError: the statistic does not exist) a plain RuntimeError is a failure
+                run.oracle_fail("probabilistic", [dname, str(it)], f"raised RuntimeError: {str(e)[:120]}", f"prob:raised:{it}")
             run.count("prob.unavailable", f"{dname}/{it}:{type(e).__name__}")
             continue
         x = out["x"]
@@ -333,7 +335,9 @@ def composite_oracle(run, drv=None):
                         lp_dist = dist.log_prob(out.select("x", "y"))
         except TimeoutError:
             raise
-        except Exception as e:  # noqa: BLE001  (statistic unavailable, or num_samples with a non-random type)
+        except Exception as e:  # noqa: BLE001  (statistic unavailable)
+            if type(e) is RuntimeError:
+                run.oracle_fail("probabilistic", case, f"raised RuntimeError: {str(e)[:120]}", f"composite:raised:{it}")
             run.count("prob.unavailable", f"composite/{second}/{'agg' if agg else 'perkey'}/{ns}/{it}:{type(e).__name__}")
             continue
         lead = () if ns is None or it != InteractionType.RANDOM else (ns,)
@@ -662,6 +666,80 @@ def prob_select_oracle(run):
                 run.oracle_ok("prob_selection")
 
 
+def prob_seq_options_oracle(run):
+    """ProbabilisticTensorDictSequential with its `inplace` setting and a `tensordict_out`: a destination given by the caller
+    is the object returned and receives the out_keys whatever the setting; with inplace=False / "empty" and no destination a new
+    tensordict is returned and the input is left as it is; MEAN on a distribution without a closed-form mean is the empirical mean."""
+    from tensordict import TensorDict
+    from tensordict.nn import (ProbabilisticTensorDictModule as PM, ProbabilisticTensorDictSequential as PS, TensorDictModule as TM,
+                               set_interaction_type)
+    from tensordict.nn.probabilistic import InteractionType
+
+    def build(**kw):
+        return PS(TM(lambda x: (x, torch.ones_like(x)), in_keys=["x"], out_keys=["loc", "scale"]),
+                  PM(in_keys=["loc", "scale"], out_keys=["a"], distribution_class=D.Normal), **kw)
+    for ip, with_out in itertools.product([None, True, False, "empty"], [False, True]):
+        case = ["prob_seq_options", str(ip), "tensordict_out" if with_out else "-"]
+        run.case(("prob_seq_options", str(ip), with_out))
+        td = TensorDict({"x": torch.arange(2.0)}, [2])
+        dest = TensorDict({"keep": torch.ones(2)}, [2])
+        before = dict(td.items())
+        try:
+            with warnings.catch_warnings():
+                warnings.simplefilter("ignore")
+                with time_limit(60), set_interaction_type(InteractionType.MODE):
+                    r = build(**({} if ip is None else {"inplace": ip}))(td, **({"tensordict_out": dest} if with_out else {}))
+        except TimeoutError:
+            raise
+        except Exception as e:  # noqa: BLE001
+            run.oracle_fail("prob_seq_options", case, f"raised {type(e).__name__}: {str(e)[:120]}", "prob_seq_options:raised")
+            continue
+        bad = []
+        if with_out:
+            if r is not dest:
+                bad.append("a tensordict_out was given but another object was returned")
+            elif set(dest.keys()) != {"keep", "loc", "scale", "a"}:
+                bad.append(f"tensordict_out holds {sorted(dest.keys())}")
+            if set(td.keys()) != {"x"}:
+                bad.append(f"the input gained {sorted(set(td.keys()) - {'x'})} although a tensordict_out was given")
+        elif ip in (False, "empty"):
+            if r is td or set(r.keys()) != {"loc", "scale", "a"}:
+                bad.append(f"inplace={ip}: returned the input / keys {sorted(r.keys())}")
+            if set(td.keys()) != {"x"} or any(td[k] is not v for k, v in before.items()):
+                bad.append(f"inplace={ip}: the input was modified: {sorted(td.keys())}")
+        else:
+            if r is not td or set(td.keys()) != {"x", "loc", "scale", "a"}:
+                bad.append(f"inplace={ip}: expected the input with the out_keys, got {sorted(r.keys())}")
+        if not bad and not torch.allclose(r["a"], torch.arange(2.0)):
+            bad.append("values")
+        if bad:
+            run.oracle_fail("prob_seq_options", case, "; ".join(bad), "prob_seq_options:" + ("out" if with_out else str(ip)))
+        else:
+            run.oracle_ok("prob_seq_options")
+
+    class TanhNormal(D.TransformedDistribution):       # torch's base `mean` raises NotImplementedError
+        def __init__(self, loc, scale):
+            super().__init__(D.Normal(loc, scale), [D.TanhTransform()])
+    run.case(("prob_mean_fallback",))
+    torch.manual_seed(8)
+    mod = PM(in_keys=["loc", "scale"], out_keys=["a"], distribution_class=TanhNormal, n_empirical_estimate=4000)
+    td = TensorDict({"loc": torch.tensor([0.0, 1.0, -0.5]), "scale": torch.full((3,), 0.05)}, [3])
+    try:
+        with warnings.catch_warnings():
+            warnings.simplefilter("ignore")
+            with time_limit(60), set_interaction_type(InteractionType.MEAN):
+                got = mod(td)["a"]
+        if got.shape != (3,) or not torch.allclose(got, torch.tanh(td["loc"]), atol=0.02):
+            run.oracle_fail("probabilistic", ["prob_mean_fallback"], f"MEAN on a distribution without closed-form mean gave {got.tolist()}", "mean_fallback:values")
+        else:
+            run.oracle_ok("probabilistic")
+    except TimeoutError:
+        raise
+    except Exception as e:  # noqa: BLE001
+        run.oracle_fail("probabilistic", ["prob_mean_fallback"], f"MEAN on a distribution without closed-form mean raised {type(e).__name__} "
+                        "instead of using the empirical mean of n_empirical_estimate draws", "mean_fallback:raised")
+
+
 def context_oracle(run):
     """set_interaction_type / set_skip_existing restore the previous mode, nested and on exceptions"""
     from tensordict.nn import set_interaction_type, set_skip_existing, skip_existing
@@ -703,4 +781,5 @@ def run_prob(run, drv, ask):
     autoregressive_oracle(run)
     custom_lp_keys_oracle(run)
     prob_select_oracle(run)
+    prob_seq_options_oracle(run)
     context_oracle(run)
